@@ -486,6 +486,22 @@ def gl5(prog):
                     names.add(x[2])
                 if x[0] == "param" and x[1] == 1:
                     errs.append("line %d: table state flows into the key hash" % cs.line)
+            # a component of the key the table stores the triple under (`let (f, g, h) = key(*f, *g, *h)`): the same private
+            # helper, applied to the three operands in order, that insert and get use (GL8 compares those two, GL13 decides
+            # that the rewritten key denotes the triple)
+            a0 = strip(a)
+            while isinstance(a0, tuple) and a0 and a0[0] in ("ref", "deref") and len(a0) > 1:
+                a0 = strip(a0[1])
+            if isinstance(a0, tuple) and a0 and a0[0] == "field" and str(a0[2]) in ("0", "1", "2") and mir.is_call(strip(a0[1])) and \
+                    (strip(a0[1])[1].local or getattr(strip(a0[1])[1], "res_local", False)):
+                kc = strip(a0[1])
+                roles = [_role(x, {}) for x in kc[2]]
+                ins = [f2 for f2 in prog.lib_fns if f2.name == "insert" and f2.impl_self == fn.impl_self]
+                same = any(mir.is_call(strip(c2.args[1])) and strip(c2.args[1])[1].name == kc[1].name
+                           for f2 in ins for c2 in f2.terms.calls if c2.callee.name == "insert" and len(c2.args) >= 2)
+                if roles == [("f", False), ("g", False), ("h", False)] and same:
+                    fed.append(["f", "g", "h"][int(a0[2])])
+                    continue
             if len(names) != 1:
                 errs.append("line %d: hashed operand is not one field of the ite: %s" % (cs.line, show(a)))
             else:
